@@ -58,9 +58,11 @@ UNCHECKED = {
     "length::FuzzyHashLengthEncoding::from_raw": {
         "hash::inner::FuzzyHash::try_from": "binary parser; its strict gate on the decoded value is R-15.1",
         "length::FuzzyHashLengthEncoding::from_str_bytes": "text part decoder; the caller's strict gate on the decoded value is R-15.1",
+        "length::FuzzyHashLengthEncoding::new": "the encoder itself: R-09.2/R-15.3 decide that the code it produces is <= 169",
     },
     "hash::checksum::FuzzyHashChecksumData::from_raw": {
         "hash::inner::FuzzyHash::try_from": "binary parser; its strict gate on the decoded value is R-15.1",
+        "hash::checksum::FuzzyHashChecksumData::new": "the all-zero initial checksum (0 <= 48: valid in every variant)",
     },
 }
 LITERALS = {
